@@ -54,7 +54,9 @@ def check(prog: Program, rep: Report) -> None:
             loc = Loc(FILE, loop.lineno, f"TagActivator.{fn.name}")
             ok = len(pops) == 1 and len(appends) == 1 and len(maps) == 1
             if not ok:
-                rep.ob("R9.3-linear-create", False if (pops or appends or maps) else None, loc, loop.iter,
+                # no pool operation of the known form at all (e.g. the pools live in a collaborator object): the idiom is not
+                # recognised; a pop without its append (or the reverse) is a violation
+                rep.ob("R9.3-linear-create", False if (pops or appends) else None, loc, loop.iter,
                        f"each yielded in-state must move exactly one handler not-running -> running and map it "
                        f"(found {len(pops)} pops, {len(appends)} appends, {len(maps)} mappings)")
                 continue
@@ -101,7 +103,10 @@ def check(prog: Program, rep: Report) -> None:
     else:
         loop = loops[0]
         tvar = norm(loop.target)
-        iter_ok = isinstance(loop.iter, ast.Subscript) and self_attr(loop.iter.value) is not None
+        base_ = loop.iter
+        while isinstance(base_, ast.Subscript):
+            base_ = base_.value
+        iter_ok = isinstance(loop.iter, ast.Subscript) and self_attr(base_) is not None       # an entry of a table kept by the activator
         # symbolic execution of one iteration over list values: running[t] = (R0,), not_running[t] = (N0,), every local list
         # that exists before the loop = (<name>0,).  Afterwards running[t] must be empty, not_running[t] = N0 + R0 and exactly
         # one local list must have gained R0 (the collected handlers); aliases of the running list are followed.
@@ -193,7 +198,9 @@ def check(prog: Program, rep: Report) -> None:
         # which dictionary: must be the one built from 'trashes'
         built = _built_from(cls, methods)
         if isinstance(loop.iter, ast.Subscript):
-            rep.ob("R9.3-trash-list-is-trashes", built.get(self_attr(loop.iter.value)) == "trashes", loc,
+            src_list = built.get(self_attr(loop.iter.value))
+            # provenance unknown (the table is not one of those built directly from a list attribute of the taggers): undecided
+            rep.ob("R9.3-trash-list-is-trashes", None if src_list is None else src_list == "trashes", loc,
                    f"{self_attr(loop.iter.value)} built from `{built.get(self_attr(loop.iter.value))}`",
                    "the dictionary iterated in the trash routine must be the one built from the taggers' `trashes`")
         for fn in creators:
